@@ -165,7 +165,8 @@ package requests
 //@   props    C11 C09
 
 // Clear: forgets the queue (and, if both, the outstanding requests too),
-// reporting every forgotten block exactly once to f; the bitmap is rebuilt
+// reporting every forgotten block exactly once to f (Ghost_calls_f counts the
+// calls made through f); the bitmap is rebuilt
 // from what remains.
 //@ func (*Requests).Clear
 //@   requires rs != nil && f != nil
@@ -176,7 +177,9 @@ package requests
 //@   requires [rdistqr] RDistQR(rs)
 //@   requires [rsep] RSep(rs)
 //@   callback f pure
+//@   ghostvar Ghost_calls_f int
 //@   modifies rs.queue, rs.requested, rs.bitmap, heap:A:uint8
+//@   ensures  [told]   Ghost_calls_f == old(len(rs.queue)) + (both ? old(len(rs.requested)) : 0)
 //@   ensures  [queue]  len(rs.queue) == 0
 //@   ensures  [both]   both ==> len(rs.requested) == 0 && rs.bitmap == nil
 //@   ensures  [keep]   !both ==> len(rs.requested) == old(len(rs.requested))
@@ -189,6 +192,11 @@ package requests
 //@     invariant rs.queue == nil && samearr_(rs.requested, oldr) && len(rs.requested) == len(oldr) && len(oldr) == old(len(rs.requested)) && (rs.bitmap == nil || fresh_(rs.bitmap))
 //@     invariant [bits] forall k int :: 0 <= k && k < $i ==> Member(rs, int(oldr[k].index))
 //@     invariant [distr] RDistR(rs)
+//@     invariant [calls] Ghost_calls_f == 0
+//@   loop 2
+//@     invariant [calls] Ghost_calls_f == $i && len(oldr) == old(len(rs.requested)) && len(oldq) == old(len(rs.queue)) && len(rs.queue) == 0 && len(rs.requested) == 0 && rs.bitmap == nil
+//@   loop 3
+//@     invariant [calls] Ghost_calls_f == $i + (both ? len(oldr) : 0) && len(oldr) == old(len(rs.requested)) && len(oldq) == old(len(rs.queue))
 //@   props    C11 C09
 
 //@ spec NQueued(rs *Requests) int
